@@ -266,4 +266,9 @@ end
 def extract (cfg : Cfg) (s : TStream) : Except Err (List Message) :=
   exList cfg cfg.extractText [] [] 0 s
 
+/-- `Translator.extract(stream, search_text=st, comment_stack=cs, context_stack=xs)` with the
+    keyword arguments given (the defaults are `True`, `None` → `[]`, `None` → `[]`: `extract`) -/
+def extractWith (cfg : Cfg) (st : Bool) (cs xs : List Str) (s : TStream) : Except Err (List Message) :=
+  exList cfg (cfg.extractText && st) cs xs 0 s
+
 end Genshi.I18n
